@@ -383,6 +383,13 @@ func (hp *HTTPProxy) pacProxy(r *http.Request) (*url.URL, error) {
 		return nil, err
 	}
 
+	// SOCKS and SOCKS4 are recognised by the PAC parser but are not supported as upstream proxies.
+	// Fail the request, otherwise CONNECT fails with "unsupported proxy scheme"
+	// while http.Transport treats the unknown scheme as an HTTP proxy.
+	if p.Mode == pac.SOCKS || p.Mode == pac.SOCKS4 {
+		return nil, fmt.Errorf("unsupported PAC proxy type %s", p.Mode)
+	}
+
 	proxyURL := p.URL()
 
 	// do not attach proxy credentials if we are using Kerberos
@@ -619,7 +626,8 @@ func (hp *HTTPProxy) isLocalhost(host string) bool {
 	if slices.Contains(hp.localhost, host) {
 		return true
 	}
-	if ip := net.ParseIP(host); ip != nil && ip.IsLoopback() {
+	// The unspecified address in any spelling ("[::0]", "[::ffff:0.0.0.0]", ...) connects to the local host as well.
+	if ip := net.ParseIP(host); ip != nil && (ip.IsLoopback() || ip.IsUnspecified()) {
 		return true
 	}
 
